@@ -169,6 +169,11 @@ class Walker:
             if isinstance(s, ast.For):
                 st = self.exprs(s.iter, st, s)
             cur = st
+            if isinstance(s, ast.For) and self.at_least_once(s.iter):
+                # the body runs at least once: the state after the loop is the state after one or more rounds
+                cur = self.block(s.body, self.loop_entry(s, cur))
+                if cur is None:
+                    return None
             for _ in range(3):
                 out = self.block(s.body, self.loop_entry(s, cur))
                 nxt = cur | (out or frozenset())
@@ -209,6 +214,23 @@ class Walker:
 
     def loop_entry(self, s, st):
         return st
+
+    def at_least_once(self, it):
+        """the iterable is never empty: a non-empty literal, or a call of a generator function of the module (or of the
+        class) whose first statement is an unconditional yield"""
+        if isinstance(it, (ast.Tuple, ast.List)) and it.elts and not any(isinstance(x, ast.Starred) for x in it.elts):
+            return True
+        if not isinstance(it, ast.Call):
+            return False
+        g = None
+        if isinstance(it.func, ast.Name):
+            g = self.fk.mod.functions.get(it.func.id)
+        elif isinstance(it.func, ast.Attribute) and isinstance(it.func.value, ast.Name) and it.func.value.id in ("self", "cls") and self.fk.cls is not None:
+            g = self.eng.repo.find_method(self.fk.cls, it.func.attr)[1]
+        if g is None:
+            return False
+        body = [x for x in g.body if not (isinstance(x, ast.Expr) and isinstance(x.value, ast.Constant))]
+        return bool(body) and isinstance(body[0], ast.Expr) and isinstance(body[0].value, ast.Yield)
 
     # -- simple statements
     def simple(self, s, st):
